@@ -634,6 +634,10 @@ def iter_elem(self, it, node, loopnode=None):
     return TopV('iter'), None
 
 
+def _takes_pass(fn):
+    return fn.__code__.co_argcount >= 2
+
+
 def loop_fix(self, s, st, frame, head):
     """fixpoint of a loop; `head(state)` evaluates the loop head on a forked state and returns it (or None)"""
     cur = st
@@ -642,7 +646,7 @@ def loop_fix(self, s, st, frame, head):
     save_pc = self.pc
     for _pass in range(LOOP_PASSES):
         frame.loops.append({'breaks': [], 'conts': [], 'certain': False})
-        body_in = head(cur.fork())
+        body_in = head(cur.fork(), _pass) if _takes_pass(head) else head(cur.fork())
         if body_in is None:
             frame.loops.pop()
             break
@@ -736,8 +740,13 @@ def s_For(self, s, st, frame):
     _el, _ln = self.iter_elem(it, s.iter, s)
     frame.loopn.append(_ln)
 
-    def head(state):
+    def head(state, npass=1):
         el, _n = self.iter_elem(it, s.iter, s)
+        if npass == 0 and isinstance(it, Opaque) and it.what == 'range' and it.args[0] is not None and isinstance(el, IntV) \
+                and not frame.loops[:-1]:
+            # peeled first iteration of an outermost loop: the loop variable has its first value
+            lo0 = it.args[0]
+            el = IntV(lo0, el.taint) if not lo0.is_const() else Const(int(lo0.c), el.taint)
         if self.loop_taint:
             self.pc = self.pc | taint_of(it)
         self.bind(s.target, el, state, s)
